@@ -170,4 +170,5 @@ verus_unit("fftv", "fftv", ["C09"], ["fft::fft_inputs::FftInputs::permute (every
 
 verus_unit("fftcore", "fftcore", ["C09"], [
     "fft::fft_inputs::fft_in_place (the butterfly network: every power-of-two length, every element value, every twiddle table; equals the radix-2 decimation-in-time recursion on each interleaved subsequence, other positions untouched)",
-    "FftInputs::fft_in_place (entry point: the whole input is one subsequence)"])
+    "FftInputs::fft_in_place (entry point: the whole input is one subsequence)",
+    "fft::serial::evaluate_poly (network followed by the bit-reversal permutation: position t holds fft(p)[bitrev t])"])
